@@ -1719,6 +1719,11 @@ func (e *Engine) equalValues(st *State, x, y Value, t types.Type) *Term {
 		if !types.Identical(xv.typ, yv.typ) {
 			return c.False
 		}
+		if !types.Comparable(xv.typ) {
+			// Go: comparing two interface values with identical dynamic types that are not
+			// comparable panics at run time
+			e.goPanic(st, "runtime error: comparing uncomparable type "+xv.typ.String())
+		}
 		return e.equalValues(st, xv.v, yv.v, xv.typ)
 	case AggVal:
 		yv := y.(AggVal)
